@@ -190,6 +190,9 @@ func matchNPMRequirement(req VersionKey, vers []Version) []Version {
 // matchRequirement is a default implementation of MatchRequirement, appropriate
 // for many systems.
 func matchRequirement(req VersionKey, versions []Version) []Version {
+	// Like the NPM case, return the matches in ascending order whatever
+	// order the versions were given in.
+	SortVersions(versions)
 	constraint, err := req.System.Semver().ParseConstraint(req.Version)
 	if err != nil {
 		// Fall back to string matching.
